@@ -108,6 +108,7 @@ TABLE: list[tuple[str, str, bool, str, list[F]]] = [
         "    def __len__(self) -> int:\n        return len(self.items)\n",
         [],
     ),
+    ("SeqPlus", "Seq", False, "", [F("extra", "Expr | None", "opt", "any", "None")]),
     ("Carrier", "Expr", False, "", [F("tok", "Tok", "prop", "tok")]),
     # a bookkeeping field that differs between otherwise content-equal nodes
     ("Serial", "Expr", False, "", [F("name", "str", "prop", "str"), F("serial", "int", "prop", "int", "field(init=False, compare=False, default_factory=_next_serial)", compare=False, init=False)]),
@@ -267,7 +268,7 @@ PROP_FIELDS: dict[str, list[F]] = _Tab({n: [f for f in fs if f.kind == "prop"] f
 
 NODE_CLASSES = [n for n in _OWN if n != "Expr"]
 LEAF_CLASSES = ["LeafA", "LeafB", "LeafA2", "Meta", "Vals", "FS", "Carrier", "Serial", "Upper", "Lit", "Located", "Typed", "Dyn", "CaseMix", "Both"]
-INNER_CLASSES = ["Pair", "Seq", "Fixed", "Mixed", "Falsy"]
+INNER_CLASSES = ["Pair", "Seq", "Fixed", "Mixed", "Falsy", "SeqPlus"]
 
 def redefine_dyn() -> None:
     """Define `Dyn` again in the same module: first an OLDER version of the class (one field less), which is
